@@ -13,8 +13,8 @@ from common import *
 PROP = "C16"
 META = {
  "engine": "F-pure-functions",
- "text": "Coq theorems (Props/C16.v, closed under the global context) about an executable model of MidiFileOutputDevice, MidiFileInputDevice.read and the note/chord call trace: for ANY message list (any interleaving of note and non-note messages, arbitrary deltas) every note is placed at the sum of all deltas up to and including its own and gets the length up to its release, a note_on with velocity 0 being a release (C16_positions, C16_velocity0_is_release, C16_other_messages_only_shift); decoding the writer's deltas returns the ticks of the calls and the file length is the tick of write() (C16_deltas, C16_trailing_silence); for every sequence of notes, chords and rests with positive durations/lengths/velocities and no two overlapping notes of the same pitch, reading the written file returns the same pitches, velocities, grouping, onsets, lengths, and the same duration and gate for every event but the last (C16_roundtrip, all chords/gates). The model is tied to the repository on every run: files written through PDict.save, Timeline+MidiFileOutputDevice and the bare device are parsed with mido and compared message by message with the model; those files and foreign files built with mido are read with MidiFileInputDevice.read() and compared with the model's reader inside Coq (vm_compute). An independent Python oracle (round trip; absolute ticks by summing all deltas) judges every implementation result and supplies the failing input.",
- "note": "Trusted: Coq kernel + VM; mido (bytes of the Standard MIDI File, both directions); the Python harness incl. conversion of observed floats (beats) to ticks (must be within 1e-6 tick of an integer). Modelled not verified: float arithmetic of the device clock (time += 1/tpb; int(round(dt*tpb))) is modelled as exact tick counting — validated by the correspondence incl. long files; the call trace of the scheduler for a note/chord sequence (which tick, which order) is an executable model validated per case against the written file, its general correctness is C01/C02's business; read(quantize=...) is not modelled; only the first track containing a note_on is read (as the code does).",
+ "text": "Coq theorems (Props/C16.v, closed under the global context) about an executable model of MidiFileOutputDevice, MidiFileInputDevice.read and the note/chord call trace: for ANY message list (any interleaving of note and non-note messages, arbitrary deltas) every note is placed at the sum of all deltas up to and including its own and gets the length up to its release, a note_on with velocity 0 being a release (C16_positions, C16_velocity0_is_release, C16_other_messages_only_shift); decoding the writer's deltas returns the ticks of the calls and the file length is the tick of write() (C16_deltas, C16_trailing_silence); for every sequence of notes, chords and rests with positive durations/lengths/velocities and no two overlapping notes of the same pitch, reading the written file returns the same pitches, velocities, grouping, onsets, lengths, and the same duration and gate for every event but the last (C16_roundtrip, all chords/gates). The model is tied to the repository on every run: files written through PDict.save, Timeline+MidiFileOutputDevice and the bare device are parsed with mido and compared message by message with the model; those files and foreign files built with mido are read with MidiFileInputDevice.read() and compared with the model's reader inside Coq (vm_compute). An independent Python oracle (round trip; absolute ticks by summing all deltas) judges every implementation result and supplies the failing input. Reader objects that outlive the file (IO/ReaderHistory.v): for ALL histories of writes (by isobar or anything else), removals and reads through long-lived reader objects with any quantize values, every read returns the decoding of the LATEST write to its path and earlier reads play no role (C16_history_*), incl. the round trip through a history; checked on every run on histories `write; read; rewrite; read ...` on one reader object per path, each read judged against a reader object created at that moment and against the file as it is on disk.",
+ "note": "Trusted: Coq kernel + VM; mido (bytes of the Standard MIDI File, both directions); the Python harness incl. conversion of observed floats (beats) to ticks (must be within 1e-6 tick of an integer). Modelled not verified: float arithmetic of the device clock (time += 1/tpb; int(round(dt*tpb))) is modelled as exact tick counting — validated by the correspondence incl. long files; the call trace of the scheduler for a note/chord sequence (which tick, which order) is an executable model validated per case against the written file, its general correctness is C01/C02's business; read(quantize=...) is modelled (round-half-even on exact tick arithmetic) and compared in the history stratum only where ties are exact in floats or impossible; only the first track containing a note_on is read (as the code does).",
 }
 
 HEADER = """From Isobar Require Import Base.Prelude IO.MidiFile.
@@ -369,11 +369,11 @@ def rand_other(rng, d):
     return [d, k, "m%d" % rng.randint(0, 99)]
 
 
-def gen_foreign_case(rng, i):
+def gen_foreign_case(rng, i, tpbs=None):
     strata = ["interleaved", "interleaved", "vel0", "interleaved_vel0", "chords", "multitrack", "overlap", "raw", "raw_small",
               "no_notes", "unterminated", "zero_length", "notes_only", "big_deltas", "other_between_only"]
     stratum = strata[i % len(strata)]
-    tpb = rng.choice(TPBS)
+    tpb = rng.choice(tpbs or TPBS)
     unit = rng.choice([1, 1, tpb // 4 or 1, tpb // 2 or 1, tpb])
     if stratum in ("raw", "raw_small"):
         pool = [rng.randint(0, 127) for _ in range(rng.randint(1, 3))]
@@ -498,6 +498,259 @@ def snippet(case):
                 % ("dev.midifile.ticks_per_beat = %d\n" % case["file_tpb"] if case.get("file_tpb") else "", case["clock_tpb"]))
     return head + body + ("print([m for m in mido.MidiFile('c16_replay.mid').tracks[0]])\n"
                           "print({k: list(v.sequence) for k, v in MidiFileInputDevice('c16_replay.mid').read().items()})\n")
+
+
+# ---- histories: reader objects that outlive the file ---------------------------------------------------
+# The dimension: ONE MidiFileInputDevice object per path, created once, used for several reads (several quantize values)
+# while the file at its path is rewritten by isobar or by anything else, or removed.  Model: IO/ReaderHistory.v
+# (C16_history_*): every read returns the decoding of the file as it is at the time of the read.
+HEADER_HIST = """From Isobar Require Import Base.Prelude IO.MidiFile IO.ReaderHistory.
+Definition tk (n : Z) : list op := repeat OTick (Z.to_nat n).
+"""
+DYADIC = [16, 64, 256, 1024]
+HISTORY_STRATA = ["rewrite", "rewrite", "quantize-values", "two-paths", "remove", "save-then-foreign", "foreign-then-save",
+                  "read-before-write", "many-rewrites"]
+
+
+def is_dyadic(n):
+    return n > 0 and n & (n - 1) == 0
+
+
+def gen_content(rng, j, want=None, dyadic=False):
+    """a write step payload: ("foreign"|"events"|"device", subcase)"""
+    kind = want or rng.choice(["foreign", "foreign", "events", "device"])
+    if kind == "foreign":
+        k = rng.choice([0, 1, 2, 3, 4, 5, 6, 10, 11, 12, 13, 14]) if rng.random() < 0.85 else rng.choice([7, 8, 9])
+        c = gen_foreign_case(rng, k, tpbs=DYADIC if dyadic else None)
+        return "foreign", c
+    if kind == "events":
+        c = gen_event_case(rng, j)
+        c["also_load"] = False
+        return "events", c
+    return "device", gen_device_case(rng, j + 1)
+
+
+def pick_quantize(rng, tpb, p_none=0.5):
+    """quantize in ticks of the file now at the path (None = no quantisation).  Ties of round() are reachable only where
+    they are exact in floats: any grid on a power-of-two resolution; otherwise odd grids (2x = (2k+1)q has no solution)."""
+    if tpb is None or rng.random() < p_none:
+        return None
+    if is_dyadic(tpb):
+        return rng.choice([1, 2, 3, 5, 6, 12, max(1, tpb // 8), tpb // 4, tpb // 2, tpb, 2 * tpb])
+    return rng.choice([1, 3, 5, 15, 45, 75, 121, 241, 479, 481, tpb + 1 if tpb % 2 == 0 else tpb])
+
+
+def gen_history_case(rng, i):
+    stratum = HISTORY_STRATA[i % len(HISTORY_STRATA)]
+    dyadic = rng.random() < 0.5
+    npaths = 2 if stratum == "two-paths" else 1
+    steps, tpb_at = [], {}
+
+    def write(p, want=None):
+        kind, c = gen_content(rng, i + len(steps), want, dyadic)
+        steps.append([kind, p, c])
+        tpb_at[p] = c["tpb"] if kind == "foreign" else (c.get("file_tpb") or 480)
+
+    def read(p, p_none=0.5):
+        steps.append(["read", p, pick_quantize(rng, tpb_at.get(p), p_none)])
+
+    if stratum == "rewrite":
+        write(0); read(0); write(0); read(0)
+        if rng.random() < 0.5:
+            write(0); read(0)
+    elif stratum == "quantize-values":
+        write(0, "foreign"); read(0, 0.1); read(0, 0.1); read(0, 1.0); write(0); read(0, 0.2); read(0, 0.2); read(0, 1.0)
+    elif stratum == "two-paths":
+        write(0); write(1); read(0); read(1); write(0); read(1); read(0); write(1); read(0); read(1)
+    elif stratum == "remove":
+        write(0); read(0); steps.append(["remove", 0]); tpb_at.pop(0); read(0); write(0); read(0)
+    elif stratum == "save-then-foreign":
+        write(0, "events"); read(0); write(0, "foreign"); read(0); read(0)
+    elif stratum == "foreign-then-save":
+        write(0, "foreign"); read(0); write(0, "events"); read(0, 0.8); read(0)
+    elif stratum == "read-before-write":
+        read(0); write(0); read(0); write(0); read(0)
+    else:
+        for _ in range(rng.randint(3, 6)):
+            write(0)
+            for _ in range(rng.randint(0, 2)):
+                read(0)
+        read(0)
+    return {"kind": "history", "paths": npaths, "steps": steps, "stratum": "history." + stratum}
+
+
+def quant_beats(q, tpb):
+    return None if q is None else float(Fraction(q, tpb))
+
+
+def history_payload(case, files_tpb):
+    """the driver's view: quantize in beats of the resolution of the file now at the path"""
+    steps = []
+    tpb_at = {}
+    for st in case["steps"]:
+        if st[0] == "read":
+            steps.append(["read", st[1], quant_beats(st[2], tpb_at.get(st[1]) or 480)])
+        elif st[0] == "remove":
+            tpb_at.pop(st[1], None)
+            steps.append(st)
+        else:
+            c = st[2]
+            tpb_at[st[1]] = c["tpb"] if st[0] == "foreign" else (c.get("file_tpb") or 480)
+            steps.append([st[0], st[1], {k: v for k, v in c.items() if not k.startswith("_")}])
+    return {"kind": "history", "paths": case["paths"], "steps": steps}
+
+
+def history_snippet(case):
+    lines = ["import os, mido, isobar as iso", "from isobar.io.midifile import MidiFileOutputDevice, MidiFileInputDevice",
+             "paths = ['c16_hist_%%d.mid' %% k for k in range(%d)]" % case["paths"],
+             "readers = [MidiFileInputDevice(p) for p in paths]          # ONE reader object per path, for the whole history",
+             "def show(p, q):",
+             "    try: print('read', p, q, {k: list(v.sequence) for k, v in (readers[p].read() if q is None else readers[p].read(quantize=q)).items()})",
+             "    except Exception as e: print('read', p, q, 'raises', type(e).__name__)"]
+    tpb_at = {}
+    for st in case["steps"]:
+        if st[0] == "read":
+            lines.append("show(%d, %r)" % (st[1], quant_beats(st[2], tpb_at.get(st[1]) or 480)))
+        elif st[0] == "remove":
+            tpb_at.pop(st[1], None)
+            lines.append("os.unlink(paths[%d])" % st[1])
+        else:
+            c = st[2]
+            tpb_at[st[1]] = c["tpb"] if st[0] == "foreign" else (c.get("file_tpb") or 480)
+            sub = snippet(c).replace("'c16_replay.mid'", "paths[%d]" % st[1])
+            sub = "\n".join(l for l in sub.split("\n") if not l.startswith("print(") and not l.startswith("d = MidiFileInputDevice")
+                            and not l.startswith("import ") and not l.startswith("from isobar"))
+            lines.append("# --- %s file written to paths[%d]" % (st[0], st[1]))
+            lines.append(sub)
+    return "\n".join(lines)
+
+
+def shrink_history(run, cut, kind, detail):
+    """smaller histories that still fail: only the steps of the path of the failing read; then only its last two writes"""
+    p = cut["steps"][-1][1]
+    own = [[st[0], 0] + st[2:] for st in cut["steps"] if st[1] == p]
+    cands = [dict(cut, paths=1, steps=own)]
+    writes = [i for i, st in enumerate(own) if st[0] not in ("read", "remove")]
+    if len(writes) > 2:
+        cands.append(dict(cut, paths=1, steps=own[writes[-2]:]))
+    best = (cut, detail)
+    for cand in cands:
+        if len(cand["steps"]) >= len(best[0]["steps"]) and cand["paths"] >= best[0]["paths"]:
+            continue
+        try:
+            got = judge_history(run, [cand], report=False, probe=True)
+        except Exception:
+            continue
+        if got and got[0][1] == kind:
+            best = (dict(cand, steps=cand["steps"][:got[0][0] + 1]), got[0][2])
+    return best
+
+
+def judge_history(run, cases, report=True, probe=False):
+    shards = [cases[i::12] for i in range(12) if cases[i::12]]
+    d = os.path.join(run.work, "midi")
+    outs = run.impl_parallel("c16_impl", [{"dir": d, "cases": [history_payload(c, None) for c in sh]} for sh in shards])
+    terms, meta, failures = [], [], 0
+    for sh, out in zip(shards, outs):
+        for case, r in zip(sh, out["cases"]):
+            if not probe:
+                run.count(1)
+                run.dist(case["stratum"])
+            text = json.dumps(case, sort_keys=True)
+            if not probe:
+                run.nontrivial(text)
+            if "error" in r or len(r.get("steps", [])) != len(case["steps"]):
+                failures += 1
+                if report:
+                    run.violation({"kind": "history-raises", "site": "history"}, {"case": case, "observed": r.get("error"), "python": history_snippet(case)})
+                continue
+            ops, exps, bad, skip = [], [], [], False
+            current = {}           # path -> (write kind, subcase, parsed file)
+            nread = {}
+            for j, (st, o) in enumerate(zip(case["steps"], r["steps"])):
+                kind, p = st[0], st[1]
+                if kind == "remove":
+                    current.pop(p, None)
+                    ops.append("HRemove %d" % p)
+                    continue
+                if kind != "read":
+                    if o.get("write_error"):
+                        skip = True
+                        if kind == "foreign":
+                            run.discard("mido rejected the generated foreign file")
+                        else:
+                            bad.append((j, "write-raises", o["write_error"]))
+                        break
+                    current[p] = (kind, st[2], o["file"])
+                    es_ok = kind == "events" and (st[2].get("file_tpb") or 480) == o["file"]["tpb"] and len(o["file"]["tracks"]) == 1
+                    ops.append("HSave %d %s" % (p, events_lit(st[2]["events"])) if es_ok
+                               else "HWrite %d %s" % (p, lst([track_lit(t) for t in o["file"]["tracks"]])))
+                    continue
+                # a read through the long-lived reader object of path p
+                q = st[2]
+                nread[p] = nread.get(p, 0) + 1
+                if not probe:
+                    run.dist("history.read.%s" % ("quantize" if q else "plain"))
+                    run.dist("history.read.%s" % ("first of its reader" if nread[p] == 1 else "reader used before"))
+                ops.append("HRead %d %s" % (p, zlit(q or 0)))
+                run.cov["oracle_evaluations"] += 1
+                if p not in current:
+                    c = canon_read(o["read"], 480)
+                    exps.append("None" if c == ("raise", "FileNotFoundError") else None)     # another exception class: the model disagrees
+                    if c[0] != "raise":
+                        bad.append((j, "history-stale-read", "step %d: there is no file at the path, yet the reader object returned %r" % (j, o["read"])))
+                    continue
+                wkind, sub, parsed = current[p]
+                if o["file"] != parsed:
+                    bad.append((j, "history-harness", "the file on disk changed without a write step"))
+                    break
+                tpb = parsed["tpb"]
+                c = canon_read(o["read"], tpb)
+                cf = canon_read(o["fresh"], tpb)
+                # oracle 1 (any quantize): the object's history must not matter — a reader object created now agrees
+                if c != cf:
+                    bad.append((j, "history-stale-read", "step %d: the reader object created at the start returns %r; a reader object created "
+                                "now for the same file returns %r" % (j, c, cf)))
+                    continue
+                # oracle 2 (no quantize): the music of the file as it is on disk now
+                if not q:
+                    res = {"file": parsed, "write_error": None}
+                    b = oracle_events({"events": sub["events"]}, res, c) if wkind == "events" else oracle_foreign(res, c)
+                    if b:
+                        bad.append((j, "history-" + b[0][0], "step %d: %s" % (j, b[0][1])))
+                        continue
+                ol = outcome_lit(c) if c[0] in ("ok", "raise") else None
+                exps.append("(Some %s)" % ol if ol else None)
+            if skip and not bad:
+                continue
+            if bad and probe:
+                return [bad[0]]
+            if bad:
+                failures += 1
+                if report:
+                    j, k0, detail = bad[0]
+                    cut = dict(case, steps=case["steps"][:j + 1])
+                    cut, detail = shrink_history(run, cut, k0, detail)
+                    run.violation({"kind": k0, "site": "history"}, {
+                        "case": cut, "observed": detail, "step": j,
+                        "oracle": "each read returns the music of the file as it is on disk at the time of the read (absolute ticks by summing all "
+                                  "deltas / round trip), and the same as a reader object created at that moment",
+                        "python": history_snippet(cut)})
+                continue
+            terms.append("hist_ok %s %s" % (lst(ops), lst(exps)) if all(e is not None for e in exps) else "false")
+            meta.append(case)
+    if probe:
+        return []
+    failing = run.coq_failing(HEADER_HIST, terms, chunk=40)
+    run.cov["traces_validated_against_impl"] += len(terms) - len(failing)
+    for i in failing:
+        failures += 1
+        if report:
+            run.violation({"kind": "correspondence-history", "site": "history"}, {
+                "case": meta[i], "relation": "every read() of a history through long-lived reader objects = hist_run of the model (IO/ReaderHistory.v: "
+                "decoding, with the read's quantize value, of the file as it is at that moment; C16_history_*)",
+                "coq_term": terms[i][:3000], "python": history_snippet(meta[i])})
+    return failures
 
 
 # ---- running a batch ----------------------------------------------------------------------------------
@@ -629,6 +882,7 @@ def check(run):
                   "ops": [["on", 60, 64, 0], ["t", 59999], ["off", 60, 0], ["t", 1], ["on", 61, 1, 0], ["t", 7], ["off", 61, 0]]})
     for i in range(0, len(cases), 1500):
         judge(run, cases[i:i + 1500])
+    judge_history(run, [gen_history_case(rng, i) for i in range(180 if quick else 1500)])
     run.cov["rule"] = ("one case = one MIDI file: written by isobar from a note/chord/rest sequence (PDict.save / Timeline + "
                        "MidiFileOutputDevice / bare device calls) or built with mido (foreign), then parsed with mido and read with "
                        "MidiFileInputDevice.read(); distinct by the generating input; non-trivial = the file contains at least one "
@@ -645,5 +899,7 @@ def replay(run, doc):
             check(run)
         return run.finish()
     case = {k: v for k, v in case.items() if not k.startswith("_")}
+    if case["kind"] == "history":
+        return 1 if judge_history(run, [case], report=True) else 0
     n = judge(run, [case], report=True)
     return 1 if n else 0
